@@ -25,8 +25,11 @@ def render(vals=None):
     for n, (ty, has_init, oid) in zip(NAMES, vals):
         a = f'@id({oid}) ' if oid is not None else ''
         out.append(f'{a}override {n}: {ty}{" = " + dflt[ty] if has_init else ""};')
-    out.append('@vertex fn vs() -> @builtin(position) vec4<f32> { return vec4<f32>(0.0); }')
-    out.append('@fragment fn fs() {}')
+    # the overrides are READ: the fragment entry reads the first two directly, the vertex entry reaches the third through a helper
+    # (whatever a stage reads, every entry helper must hand the caller's whole map to the pipeline)
+    out.append(f'fn reads_third() {{ let u2 = {NAMES[2]}; }}')
+    out.append('@vertex fn vs() -> @builtin(position) vec4<f32> { reads_third(); return vec4<f32>(0.0); }')
+    out.append(f'@fragment fn fs() {{ let u0 = {NAMES[0]}; let u1 = {NAMES[1]}; }}')
     return '\n'.join(out) + '\n'
 
 
